@@ -1414,6 +1414,10 @@ class FnTranslator:
         # emit
         for t, n, a in f.params:
             self.locals[n] = t
+        for lbl, pi in parsed:
+            for i_ in pi:
+                if i_['op'] == 'phi':
+                    self.locals[i_['dest']] = i_['ty']
         body = self.body
         for bi, (lbl, pi) in enumerate(parsed):
             body.append('L_%s:;' % cid(lbl))
@@ -2352,6 +2356,7 @@ def run(em, args):
                 continue  # defined by the prelude
             if name.startswith('_ZTVN10__cxxabiv'):
                 gdecl.append('%s %s[8]; /* external vtable placeholder (address identity only) */' % (ct, c))
+                gdecl.append('#define IR2C_HAVE_%s 1' % c)
                 continue
             gdecl.append('%s %s; /* external object: zero-initialised placeholder */' % (ct, c))
             gdecl.append('#define IR2C_HAVE_%s 1' % c)
